@@ -5,11 +5,206 @@ package main
 import (
 	"go/ast"
 	"go/types"
+	"strings"
 )
 
-func (fc *FuncCtx) lockEffects(st *State, call *ast.CallExpr, fn *types.Func, args []boundArg) {}
+// ---- lock permissions (C10) ---------------------------------------------------------------------
+// held maps the source text of a lock owner expression ("shard", "m[*]") to the mode it is held in.
 
-func (fc *FuncCtx) lockCheck(st *State, e ast.Expr, mode string, n ast.Node) {}
+func (fc *FuncCtx) lockEffects(st *State, call *ast.CallExpr, fn *types.Func, args []boundArg) {
+	var op string
+	switch fn.FullName() {
+	case "(*sync.RWMutex).Lock", "(*sync.Mutex).Lock":
+		op = "W"
+	case "(*sync.RWMutex).RLock":
+		op = "R"
+	case "(*sync.RWMutex).Unlock", "(*sync.Mutex).Unlock":
+		op = "UW"
+	case "(*sync.RWMutex).RUnlock":
+		op = "UR"
+	default:
+		return
+	}
+	sel, ok := unparen(call.Fun).(*ast.SelectorExpr)
+	if !ok {
+		return
+	}
+	key := exprStr(sel.X)
+	cur := st.held[key]
+	switch op {
+	case "W", "R":
+		if cur != "" {
+			fc.oblige(st, "lock.order", key, "false", call, "lock of "+key+" acquired while it is already held (self-deadlock)")
+		}
+		if len(st.held) > 0 && cur == "" {
+			fc.oblige(st, "lock.order", key, "false", call, "a second lock is acquired while another is held (lock-order / deadlock freedom is argued only for single-lock critical sections)")
+		}
+		st.held[key] = op
+	case "UW", "UR":
+		want := op[1:]
+		if cur != want {
+			fc.oblige(st, "lock.held", key, "false", call, "unlock of "+key+" which is not held in mode "+want)
+		}
+		delete(st.held, key)
+	}
+}
+
+// lockCheck: an access to a guarded field needs the owner's lock in a sufficient mode.
+func (fc *FuncCtx) lockCheck(st *State, e ast.Expr, mode string, n ast.Node) {
+	sel, ok := unparen(e).(*ast.SelectorExpr)
+	if !ok {
+		return
+	}
+	s := fc.info.Selections[sel]
+	if s == nil || s.Kind() != types.FieldVal {
+		return
+	}
+	recv := s.Recv()
+	if p, ok := recv.Underlying().(*types.Pointer); ok {
+		recv = p.Elem()
+	}
+	if !fc.w.Guarded[qualName(recv)+"."+sel.Sel.Name] {
+		return
+	}
+	if fc.contract != nil && fc.contract.Opts["nolock"] != "" {
+		return
+	}
+	owner := exprStr(sel.X)
+	have := st.held[owner]
+	okMode := have == "W" || (mode == "R" && have == "R")
+	goal := "false"
+	if okMode {
+		goal = "true"
+	}
+	what := "read"
+	if mode == "W" {
+		what = "write"
+	}
+	fc.oblige(st, "lock.held", owner, goal, n, what+" of "+exprStr(e)+" under the lock of "+owner+" (held: "+strings.TrimSpace(have+" ")+")")
+}
+
+// reachesGuarded: a value of this static type can reach a guarded field.
+func (fc *FuncCtx) reachesGuarded(t types.Type, depth int) bool {
+	if depth > 6 {
+		return false
+	}
+	switch u := t.Underlying().(type) {
+	case *types.Pointer:
+		return fc.reachesGuarded(u.Elem(), depth+1)
+	case *types.Slice:
+		return fc.reachesGuarded(u.Elem(), depth+1)
+	case *types.Array:
+		return fc.reachesGuarded(u.Elem(), depth+1)
+	case *types.Map:
+		return fc.reachesGuarded(u.Elem(), depth+1)
+	case *types.Struct:
+		for i := 0; i < u.NumFields(); i++ {
+			if fc.w.Guarded[qualName(t)+"."+u.Field(i).Name()] {
+				return true
+			}
+			if fc.reachesGuarded(u.Field(i).Type(), depth+1) {
+				return true
+			}
+		}
+	}
+	return false
+}
+
+// reflectReads: a reflection-based reader (json.Marshal) touches everything reachable from its
+// argument; every variable in the argument expression whose type reaches a guarded field must
+// have all its elements locked.
+func (fc *FuncCtx) reflectReads(st *State, call *ast.CallExpr) {
+	if fc.contract != nil && fc.contract.Opts["nolock"] != "" {
+		return
+	}
+	for _, a := range call.Args {
+		ast.Inspect(a, func(n ast.Node) bool {
+			id, ok := n.(*ast.Ident)
+			if !ok {
+				return true
+			}
+			v, ok := fc.info.ObjectOf(id).(*types.Var)
+			if !ok || !fc.reachesGuarded(v.Type(), 0) {
+				return true
+			}
+			have := st.held[id.Name+"[*]"]
+			goal := "false"
+			if have == "R" || have == "W" {
+				goal = "true"
+			}
+			fc.oblige(st, "lock.held", id.Name+"[*]", goal, call, exprStr(call.Fun)+" reads every shard reachable from "+id.Name+" by reflection: all of them must be locked")
+			return true
+		})
+	}
+}
+
+// lockLoop handles `for _, s := range m { s.RLock() }` (acquires) and the matching release loop.
+func (fc *FuncCtx) lockLoop(st *State, x *ast.RangeStmt, lc *LoopContract) bool {
+	spec := lc.Acquires
+	rel := false
+	if spec == "" {
+		spec, rel = lc.Releases, true
+	}
+	if spec == "" {
+		return false
+	}
+	fs := strings.Fields(spec)
+	owner := fs[0]
+	id, ok := unparen(x.X).(*ast.Ident)
+	vid, ok2 := x.Value.(*ast.Ident)
+	if !ok || !ok2 || id.Name != owner || len(x.Body.List) != 1 {
+		fc.fail(x, "acquires/releases loop must be `for _, s := range %s { s.Lock()|RLock()|Unlock()|RUnlock() }`", owner)
+	}
+	es, ok := x.Body.List[0].(*ast.ExprStmt)
+	var call *ast.CallExpr
+	if ok {
+		call, ok = es.X.(*ast.CallExpr)
+	}
+	if !ok {
+		fc.fail(x, "acquires/releases loop body must be a single lock call")
+	}
+	sel, ok := call.Fun.(*ast.SelectorExpr)
+	rid, ok2 := sel.X.(*ast.Ident)
+	if !ok || !ok2 || rid.Name != vid.Name {
+		fc.fail(x, "acquires/releases loop must lock the range variable")
+	}
+	// element dereference safety: every element must be non-nil
+	coll := fc.eval(st, x.X)
+	if sl, isSl := coll.T.Underlying().(*types.Slice); isSl {
+		_, arr, off, ln, _ := fc.reg().sliceParts(coll)
+		el := Term{S: "(select " + arr + " q_lk)", T: sl.Elem()}
+		fc.oblige(st, "panic.nilptr", "", "(forall ((q_lk Int)) (=> (and (<= "+off+" q_lk) (< q_lk (+ "+off+" "+ln+"))) "+not(fc.reg().isNil(el))+"))", x, "every shard locked by the loop is non-nil")
+	}
+	switch sel.Sel.Name {
+	case "RLock", "Lock":
+		mode := "R"
+		if sel.Sel.Name == "Lock" {
+			mode = "W"
+		}
+		if rel || len(fs) < 2 || fs[1] != mode {
+			fc.fail(x, "loop contract says %q but the body calls %s", spec, sel.Sel.Name)
+		}
+		if len(st.held) > 0 {
+			fc.oblige(st, "lock.order", owner+"[*]", "false", x, "locks acquired while others are held")
+		}
+		st.held[owner+"[*]"] = mode
+	case "RUnlock", "Unlock":
+		mode := "R"
+		if sel.Sel.Name == "Unlock" {
+			mode = "W"
+		}
+		if !rel {
+			fc.fail(x, "loop contract says acquires but the body unlocks")
+		}
+		if st.held[owner+"[*]"] != mode {
+			fc.oblige(st, "lock.held", owner+"[*]", "false", x, "release of locks that are not held in mode "+mode)
+		}
+		delete(st.held, owner+"[*]")
+	default:
+		fc.fail(x, "acquires/releases loop body must call a lock method")
+	}
+	return true
+}
 
 // allocCheck (C02): a dynamically sized allocation must be bounded by a constant (default 2048
 // elements, or the function's `opt allocbound N`), never by an unchecked wire field.
